@@ -101,6 +101,10 @@ let run_case (line : Stdlib.String.t) =
             out_bool e.accepted; out_list out_zlist e.written
           | Panic site -> out_str "PANIC"; out_z site
           | OutOfFuel -> out_str "OUTOFFUEL")) cmds
+   | "c08" ->
+     let err = next_z t in let inf = next_bool t in let maxe = next_z t in let l = next_zlist t in
+     let srcs = next_list (fun t -> let k = next_bool t in let es = next_list next_zlist t in (k, es)) t in
+     out_list (fun (k, es) -> out_bool k; out_list out_zlist es) (sources_accept err inf maxe l srcs)
    | "edcmds" -> out_list out_zlist modelled_commands
    | "quote" -> let c = next_z t in out_zlist (quote c)
    | _ -> out_str ("UNKNOWN-OP " ^ op));
